@@ -84,13 +84,23 @@ def r02_2(ctx):
     fn = ctx.fn("jordancurve.IntegrateJordan.winding_number")
     for orient in (+1, -1):
         for inbox in (True, False):
-            for onseg in (None, 0, 1, 2):
+            for onseg in (None, 0, 1, 2, "ctrl"):
                 if onseg is not None and not inbox:
                     continue      # impossible by R17.3
-                segs = (Obj("s0"), Obj("s1"), Obj("s2"))
+                # "ctrl": the query point is an off-curve control point of a curved segment -- listed among the
+                # `vertices` of the curve, in its box, on no segment: an ordinary point, wound round or not
+                ends = (Obj("v0"), Obj("v1"), Obj("v2"))
+                mids = (Obj("m0"), Obj("m1"), Obj("m2"))
+                segs = tuple(Obj(f"s{i}", ctrlpoints=(ends[i], mids[i], ends[(i + 1) % 3]), degree=2, npts=3) for i in range(3))
                 contrib = {"s0": Fr(3, 8), "s1": Fr(3, 8), "s2": Fr(21, 100)}    # sum 0.96: rounding, not truncation
                 BOX = Obj("BOX")
-                J = Obj("J", segments=segs)
+                J = Obj("J", segments=segs, vertices=(ends[0], mids[0], ends[1], mids[1], ends[2], mids[2]))
+                P = mids[0] if onseg == "ctrl" else "P"
+                if onseg == "ctrl":
+                    onseg = None
+                    cellnote = ", the query point an off-curve control point"
+                else:
+                    cellnote = ""
                 calls = []
 
                 class InBox:
@@ -111,11 +121,11 @@ def r02_2(ctx):
                     s.__dict__["_contains"] = (onseg == s_i)
                 try:
                     rn = Runner(ctx, set(), hook)
-                    got = _run_with_contains(rn, fn, [J, "P", None])
+                    got = _run_with_contains(rn, fn, [J, P, None])
                 except Undecided as ex:
                     out.undecided(fn.qname, f"not interpretable: {ex}", where=fn.where())
                     return out
-                cell = f"orientation {'+' if orient > 0 else '-'}, in box={inbox}, on segment={onseg}"
+                cell = f"orientation {'+' if orient > 0 else '-'}, in box={inbox}, on segment={onseg}{cellnote}"
                 if onseg is not None:
                     exp = Fr(1, 2) * orient
                     if got != exp:
@@ -126,7 +136,7 @@ def r02_2(ctx):
                 else:
                     exp = orient
                     seen = sorted(c[0] for c in calls)
-                    if seen != ["s0", "s1", "s2"] or any(c[1] != "P" for c in calls):
+                    if seen != ["s0", "s1", "s2"] or any(c[1] is not P and c[1] != P for c in calls):
                         out.bad(fn.qname, "the winding sum does not visit every segment once about the query point",
                                 where=fn.where(), detail=f"contributions taken: {calls}")
                     elif got != exp:
